@@ -394,5 +394,6 @@ Section ResidChecked.
              (xs : list T1) (ys : list T2) : outcome A :=
     let zs := combine xs ys in
     if body && (length ys <? length xs) then Panicked AssertFail
+    else if bad_window w xs then Panicked AssertFail   (* the window assertion looks at SELF, not at the zip *)
     else idx_run body w (fun s a => snd (resid_cb_tr k (mp_eff mp w 0) zs s a)) csum0 zs.
 End ResidChecked.
